@@ -63,7 +63,36 @@ inductive Step where
 def attIllegal (argv0 : Bytes) (c : UInt8) : Bytes := argv0 ++ b!": illegal option -- " ++ [c]
 def attNeedsArg (argv0 : Bytes) (c : UInt8) : Bytes := argv0 ++ b!": option requires an argument -- " ++ [c]
 
-/-- From `c = argv[optind][sp]` to the `return`. -/
+/-- `if (argv[optind][++sp] == '\0') { optind++; sp = 1; }` given the character read. -/
+def advance (st : GState) (nxt : UInt8) : GState :=
+  if nxt == 0 then ⟨st.optind + 1, 1⟩ else ⟨st.optind, st.sp + 1⟩
+
+/-- The three outcomes after `c` has been classified (`look` = result of the `strchr`/`':'` test). -/
+def attDecide (argv : Argv) (st : GState) (w argv0 : Bytes) (c nxt : UInt8) (look : Option Bool) :
+    Except Err Step :=
+  match look with
+  | none =>
+    -- illegal option: message, advance, return '?'
+    .ok (.ev ⟨63, none, [attIllegal argv0 c]⟩ (advance st nxt))
+  | some false =>
+    -- plain option: advance, optarg = NULL
+    .ok (.ev ⟨c, none, []⟩ (advance st nxt))
+  | some true =>
+    if nxt != 0 then
+      -- optarg = &argv[optind++][sp+1]; sp = 1
+      .ok (.ev ⟨c, some (w.drop (st.sp + 1)), []⟩ ⟨st.optind + 1, 1⟩)
+    else if st.optind + 1 ≥ argv.length then
+      -- `++optind >= argc`: message, sp = 1, return '?'
+      .ok (.ev ⟨63, none, [attNeedsArg argv0 c]⟩ ⟨st.optind + 1, 1⟩)
+    else
+      -- optarg = argv[optind++] (after the ++optind above); sp = 1
+      match argvAt argv (st.optind + 1) with
+      | .error e => .error e
+      | .ok a => .ok (.ev ⟨c, some a, []⟩ ⟨st.optind + 2, 1⟩)
+
+/-- From `c = argv[optind][sp]` to the `return`. The read of `argv[optind][sp+1]` happens in every
+    branch of the C code (`[++sp]` or `[sp+1]`), `argv[0]` is read only for messages (it exists
+    whenever `argv[optind]` does). -/
 def attBody (opts : Bytes) (argv : Argv) (st : GState) : Except Err Step :=
   match argvAt argv st.optind with
   | .error e => .error e
@@ -78,28 +107,7 @@ def attBody (opts : Bytes) (argv : Argv) (st : GState) : Except Err Step :=
     | .ok argv0 =>
     match wchar w (st.sp + 1) with
     | .error e => .error e
-    | .ok nxt =>
-    match (if c == 58 then none else optLookup opts c) with
-    | none =>
-      -- illegal option: message, `if (argv[optind][++sp] == '\0') { optind++; sp = 1; }`, return '?'
-      let e : Ev := ⟨63, none, [attIllegal argv0 c]⟩
-      if nxt == 0 then .ok (.ev e ⟨st.optind + 1, 1⟩) else .ok (.ev e ⟨st.optind, st.sp + 1⟩)
-    | some true =>
-      if nxt != 0 then
-        -- optarg = &argv[optind++][sp+1]; sp = 1
-        .ok (.ev ⟨c, some (w.drop (st.sp + 1)), []⟩ ⟨st.optind + 1, 1⟩)
-      else if st.optind + 1 ≥ argv.length then
-        -- `++optind >= argc`: message, sp = 1, return '?'
-        .ok (.ev ⟨63, none, [attNeedsArg argv0 c]⟩ ⟨st.optind + 1, 1⟩)
-      else
-        -- optarg = argv[optind++] (after the ++optind above); sp = 1
-        match argvAt argv (st.optind + 1) with
-        | .error e => .error e
-        | .ok a => .ok (.ev ⟨c, some a, []⟩ ⟨st.optind + 2, 1⟩)
-    | some false =>
-      -- `if (argv[optind][++sp] == '\0') { sp = 1; optind++; }  optarg = NULL;`
-      let e : Ev := ⟨c, none, []⟩
-      if nxt == 0 then .ok (.ev e ⟨st.optind + 1, 1⟩) else .ok (.ev e ⟨st.optind, st.sp + 1⟩)
+    | .ok nxt => attDecide argv st w argv0 c nxt (if c == 58 then none else optLookup opts c)
 
 /-- One call of `wbxml_getopt(argc, argv, opts)`. -/
 def attStep (opts : Bytes) (argv : Argv) (st : GState) : Except Err Step :=
